@@ -126,19 +126,14 @@ theorem carried_step (tc : TxCfg) (n k : Nat) (hk : 1 ≤ k) (hlt : carried tc n
 
 /-! ### the request as a byte stream -/
 
-/-- request `r` is streaming payload `p`: declared size `|p|`, `r.consumed` bytes already pulled, and the
-    generator still yields (at least) the rest of `p` -/
+/-- request `r` is streaming payload `p`: declared size `|p|`, `r.consumed` values already pulled, and what the
+    generator still yields agrees with the rest of `p` — as far as it goes: a generator that ends early is allowed
+    (`p` is then any completion of what it yields to the declared size) -/
 structure Feeds (r : Req) (p : Bytes) : Prop where
   size : r.size = p.length
   le : r.consumed ≤ r.size
-  src : r.src.take (r.size - r.consumed) = p.drop r.consumed
+  src : r.src.take (r.size - r.consumed) <+: p.drop r.consumed
   flag : r.depletedFlag = false
-
-theorem Feeds.src_len {r : Req} {p : Bytes} (h : Feeds r p) : r.size - r.consumed ≤ r.src.length := by
-  have h1 := congrArg List.length h.src
-  have h2 := h.size
-  simp only [List.length_take, List.length_drop] at h1
-  omega
 
 theorem consume_ok (r : Req) (n : Nat) (e : Bool) (hle : r.consumed ≤ r.size) (hn : n ≤ r.remaining)
     (hs : n ≤ r.src.length) :
@@ -149,20 +144,32 @@ theorem consume_ok (r : Req) (n : Nat) (e : Bool) (hle : r.consumed ≤ r.size) 
   simp only [hl]
   rw [if_neg (by omega), if_neg (by omega)]
 
-theorem Feeds.consume {r : Req} {p : Bytes} (h : Feeds r p) (n : Nat) (e : Bool) (hn : n ≤ r.remaining) :
+theorem prefix_take {α : Type} {a b : List α} (h : a <+: b) (n : Nat) (hn : n ≤ a.length) : a.take n = b.take n := by
+  obtain ⟨t, rfl⟩ := h
+  rw [List.take_append_of_le_length hn]
+
+theorem prefix_drop {α : Type} {a b : List α} (h : a <+: b) (n : Nat) (hn : n ≤ a.length) : a.drop n <+: b.drop n := by
+  obtain ⟨t, rfl⟩ := h
+  rw [List.drop_append_of_le_length hn]
+  exact List.prefix_append _ _
+
+theorem Feeds.consume {r : Req} {p : Bytes} (h : Feeds r p) (n : Nat) (e : Bool) (hn : n ≤ r.remaining)
+    (hs : n ≤ r.src.length) :
     r.consume n e = ({ r with src := r.src.drop n, consumed := r.consumed + n },
                       some ((p.drop r.consumed).take n)) ∧
     Feeds { r with src := r.src.drop n, consumed := r.consumed + n } p := by
-  have hl := h.src_len
   have hle := h.le
   have hn' : n ≤ r.size - r.consumed := by simpa only [Req.remaining] using hn
+  have hlen : n ≤ (r.src.take (r.size - r.consumed)).length := by rw [List.length_take]; omega
   constructor
-  · rw [consume_ok r n e h.le hn (by omega), ← h.src, List.take_take, Nat.min_eq_left hn']
+  · rw [consume_ok r n e h.le hn hs, ← prefix_take h.src n hlen, List.take_take, Nat.min_eq_left hn']
   · refine ⟨h.size, by simp only; omega, ?_, h.flag⟩
     simp only
-    rw [← List.drop_drop, ← h.src, List.drop_take]
-    congr 1; omega
-
+    have := prefix_drop h.src n hlen
+    rw [List.drop_take, List.drop_drop] at this
+    have e1 : r.size - (r.consumed + n) = r.size - r.consumed - n := by omega
+    rw [e1]
+    exact this
 
 open Isotp.State
 
@@ -173,12 +180,12 @@ def pullLog (r : Req) (n : Nat) : List Ev := if r.instr && n > 0 then [Ev.pull r
 def Req.adv (r : Req) (n : Nat) : Req := { r with src := r.src.drop n, consumed := r.consumed + n }
 
 theorem consumeActive_ok (s : State) (r : Req) (n : Nat) (e : Bool) (p : Bytes) (h : Feeds r p)
-    (hn : n ≤ r.remaining) :
+    (hn : n ≤ r.remaining) (hs : n ≤ r.src.length) :
     s.consumeActive r n e =
       ({ s with active := some (Req.adv r n), log := pullLog r n ++ s.log }, Req.adv r n,
         some ((p.drop r.consumed).take n)) := by
   unfold consumeActive
-  rw [(h.consume n e hn).1]
+  rw [(h.consume n e hn hs).1]
   simp only [Req.adv, pullLog, Nat.add_sub_cancel_left]
   split <;> simp [emit]
 
